@@ -1082,7 +1082,12 @@ func ProcessGanttChartRequest(ctx *fasthttp.RequestCtx, myid int64) {
 		}
 
 		for _, rawSpan := range rawSpans {
-			spanMap := rawSpan.(map[string]interface{})
+			// the traces index may hold documents that are no spans
+			spanMap, ok := rawSpan.(map[string]interface{})
+			if !ok {
+				log.Errorf("ProcessGanttChartRequest: record is not a span: %v", rawSpan)
+				continue
+			}
 
 			span := &structs.GanttChartSpan{}
 
@@ -1114,11 +1119,24 @@ func ProcessGanttChartRequest(ctx *fasthttp.RequestCtx, myid int64) {
 				continue
 			}
 
-			idToParentId[span.SpanID] = parentSpanId.(string)
+			parentSpanIdStr, ok := parentSpanId.(string)
+			if !ok {
+				log.Errorf("ProcessGanttChartRequest: span:%v has a parent_span_id that is not a string", span.SpanID)
+				continue
+			}
+			idToParentId[span.SpanID] = parentSpanIdStr
 
 			status, exists := spanMap["status"]
 			if !exists {
 				log.Errorf("ProcessGanttChartRequest: span:%v does not contain the required field: status", span.SpanID)
+				continue
+			}
+
+			serviceNameStr, ok1 := serviceName.(string)
+			operationNameStr, ok2 := operationName.(string)
+			statusStr, ok3 := status.(string)
+			if !ok1 || !ok2 || !ok3 {
+				log.Errorf("ProcessGanttChartRequest: span:%v has a required field that is not a string", span.SpanID)
 				continue
 			}
 			// Remove all non-tag fields
@@ -1132,9 +1150,9 @@ func ProcessGanttChartRequest(ctx *fasthttp.RequestCtx, myid int64) {
 				}
 			}
 			span.Tags = spanMap
-			span.ServiceName = serviceName.(string)
-			span.OperationName = operationName.(string)
-			span.Status = status.(string) // Populate Status from Span
+			span.ServiceName = serviceNameStr
+			span.OperationName = operationNameStr
+			span.Status = statusStr // Populate Status from Span
 			idToSpanMap[span.SpanID] = span
 		}
 
